@@ -298,7 +298,7 @@ class FixedNoiseGaussianLikelihood(_GaussianLikelihoodBase):
 
     @noise.setter
     def noise(self, value: Tensor) -> None:
-        if not torch.is_tensor(value):
+        if not torch.is_tensor(value) or not value.is_floating_point():
             value = torch.as_tensor(value).to(self.noise_covar.noise)
         # the same lower bound as at construction
         self.noise_covar.initialize(noise=FixedGaussianNoise._lower_bounded(value))
